@@ -552,9 +552,14 @@ func cmdRun(args []string) {
 		"violations":     len(unknown),
 		"known_findings": kfLines,
 	}
-	os.MkdirAll(filepath.Join(verifDir, "evidence"), 0o755)
+	// evidence/ describes /repo itself; runs against another tree (mutants, seeds) write elsewhere
+	evDir := filepath.Join(verifDir, "evidence")
+	if abs, _ := filepath.Abs(*repo); abs != "/repo" {
+		evDir = filepath.Join(verifDir, "evidence-other-tree")
+	}
+	os.MkdirAll(evDir, 0o755)
 	eb, _ := json.MarshalIndent(ev, "", " ")
-	if err := os.WriteFile(filepath.Join(verifDir, "evidence", prop+".json"), eb, 0o644); err != nil {
+	if err := os.WriteFile(filepath.Join(evDir, prop+".json"), eb, 0o644); err != nil {
 		die(2, "writing evidence: %v", err)
 	}
 	for _, l := range kfLines {
